@@ -1,6 +1,8 @@
 package bandersnatch
 
 import (
+	"math/big"
+
 	"github.com/crate-crypto/go-ipa/bandersnatch/fp"
 	"github.com/crate-crypto/go-ipa/bandersnatch/fr"
 )
@@ -107,6 +109,43 @@ func VerifC09Chunk() {
 	points := []PointAffine{c09point(0)}
 	ps, small := partitionScalars([]fr.Element{s}, c, false, 1)
 	vNote("small", small)
+	if !vSymbolic() {
+		// native reference: the signed digits encoded in the partitioned words sum up to the scalar
+		nb := 256 / int(c)
+		if 256%int(c) != 0 {
+			nb++
+		}
+		msb := uint64(1) << (c - 1)
+		sum := new(big.Int)
+		for k := nb - 1; k >= 0; k-- {
+			var bits uint64
+			for b := 0; b < int(c); b++ {
+				pos := uint64(k*int(c) + b)
+				if pos < 256 {
+					bits |= ps[0].Bit(pos) << uint(b)
+				}
+			}
+			d := new(big.Int)
+			if bits&msb == 0 {
+				d.SetUint64(bits)
+			} else {
+				d.SetUint64((bits &^ msb) + 1)
+				d.Neg(d)
+			}
+			sum.Lsh(sum, uint(c))
+			sum.Add(sum, d)
+		}
+		var sb big.Int
+		sv := s
+		b32 := make([]byte, 32)
+		for i := 0; i < 4; i++ {
+			for j := 0; j < 8; j++ {
+				b32[31-(8*i+j)] = byte(sv[i] >> uint(8*j))
+			}
+		}
+		sb.SetBytes(b32)
+		vAssert(sum.Cmp(&sb) == 0, "the signed digits of the partitioned scalar sum up to the scalar")
+	}
 	buckets := make([]PointProj, nb)
 	var res PointProj
 	msmProcessChunkPointAffineDMA(j, &res, buckets, c, points, ps)
